@@ -301,6 +301,8 @@ class Recorder(object):
         inj = self.inject
         if inj and not self.injected and inj["phase"] == name and inj["step"] == t:
             self.injected = True
+            if inj.get("base"):
+                raise seams.InjectedAbort("injected at step %s phase %s" % (t, name))
             raise seams.InjectedFault("injected at step %s phase %s" % (t, name))
 
     def on_move_enter(self, comp, dest):
@@ -403,11 +405,11 @@ def call(fn, recorder=None):
         out.exc_type = "SutHang"
         out.where = pdesy_frame(e.__traceback__) or "?"
         out.msg = str(e)
-    except seams.InjectedFault as e:
+    except (seams.InjectedFault, seams.InjectedAbort) as e:
         out.ok = False
         out.injected = True
         out.exc = e
-        out.exc_type = "InjectedFault"
+        out.exc_type = type(e).__name__
     except (KeyboardInterrupt, SystemExit, MemoryError):
         raise
     except Exception as e:
